@@ -168,6 +168,38 @@ def fromUnpackL (cls : String) (ul : List Val) : Option (List Val) :=
   | "SimilarityResponsePayload", ul => simRespUnpack ul
   | _, _ => none
 
+/-- `identifier % 65536` applied to the natural number at position `i` of the constructor arguments -/
+def modIdentAt : Nat → List Val → List Val
+  | _, [] => []
+  | 0, .atom (.nat k) :: r => .atom (.nat (k % 65536)) :: r
+  | 0, v :: r => v :: r
+  | i+1, v :: r => v :: modIdentAt i r
+
+/-- position of `identifier` among the constructor arguments of the hand-written payloads that reduce it -/
+def identPos : String → Option Nat
+  | "IntroductionRequestPayload" => some 5
+  | "DiscoveryIntroductionRequestPayload" => some 6
+  | "IntroductionResponsePayload" => some 6
+  | "PunctureRequestPayload" => some 2
+  | "PuncturePayload" => some 2
+  | "PingPayload" => some 0
+  | "PongPayload" => some 0
+  | "SimilarityRequestPayload" => some 0
+  | "SimilarityResponsePayload" => some 0
+  | _ => none
+
+/-- `__init__` of a hand-written payload: constructor arguments (in signature order) → attributes (in the order used by
+    `toPack` / `fromUnpack`).  The only transformations are `identifier % 65536` and, for
+    DiscoveryIntroductionRequestPayload, the inherited default `supports_new_style = True` appended. -/
+def reduceIdent (c : String) (args : List Val) : List Val :=
+  match identPos c with
+  | some i => modIdentAt i args
+  | none => args
+
+def init (cls : String) (args : List Val) : List Val :=
+  if short cls == "DiscoveryIntroductionRequestPayload" then reduceIdent (short cls) args ++ [.atom (n 1)]
+  else reduceIdent (short cls) args
+
 /-- the next 8 attributes, which must be atoms (the 8 names of one `bits` format) -/
 def take8 : List Val → Option (List Atom × List Val)
   | .atom b7 :: .atom b6 :: .atom b5 :: .atom b4 :: .atom b3 :: .atom b2 :: .atom b1 :: .atom b0 :: r =>
